@@ -14,14 +14,14 @@ CLAIMS = {
         note="PARTIAL: only the seglog layer. NOT decided: WriterSet::{handle_write,sync,rollover} and the sync_tx watermark / ack-after-fsync hand-off in the writer thread pool (the rollover watermark candidate of DESIGN §10 is not under contract), reads through the async reader pool, real kernel fsync semantics (sync_data is a model no-op counted for ordering only), reopen. Multi-step history harnesses ran CBMC out of memory and are not registered."),
     "C17": dict(
         category="other", design_ref="§5 U01/U02",
-        technique="Kani/CBMC on seglog parse_record extracted verbatim over every bit pattern of a 20-byte buffer (CRC modelled as a GF(2)-linear rolling hash), plus the writer's append-layout inductive step",
+        technique="Kani/CBMC on seglog parse_record extracted verbatim over every bit pattern of a 20-byte buffer (CRC modelled as a GF(2)-linear rolling hash) + the writer's append-layout inductive step + Verus proofs of Writer::open's recovery scan and of the read-ahead cache (units/U03)",
         text="Bounded stand-in: parse_record never panics on any bytes; an Ok result satisfies the CRC gate over exactly the bytes returned and has the documented layout; every Err kind occurs only for its documented reason; a record whose checksum matches is never rejected; Writer::append lays out exactly length, checksum, header, data — so parse_record returns what append wrote (round trip by composition).",
-        note="PARTIAL and bounded (buffer 20 bytes, H = 1, scaled constants). ASSUMED: CRC-32 detects single-bit flips and bursts <= 32 bits in a message of unchanged length (the model hash has that property; a flip in the length field is detected with probability 1-2^-32 only); zstd round trip. NOT decided here: Reader::read_record random/sequential paths and Iter (the single-call relational harnesses against parse_record and the history harnesses exceeded CBMC's memory), Writer::open's recovery scan. The real-file replay driver U02 covers them only as counterexample search."),
+        note="PARTIAL and bounded (buffer 20 bytes, H = 1, scaled constants). ASSUMED: CRC-32 detects single-bit flips and bursts <= 32 bits in a message of unchanged length (the model hash has that property; a flip in the length field is detected with probability 1-2^-32 only); zstd round trip. Writer::open's recovery scan (`a reopened writer resumes right after the last intact record`) and the read-ahead cache are proved in Verus (units/U03, counted in obligations). NOT decided here: the record decoding of Reader::read_record random/sequential paths and Iter (the single-call relational harnesses against parse_record and the history harnesses exceeded CBMC's memory): they are behind an assumed contract in U03 and covered only by the real-file replay driver U02 as counterexample search."),
     "C18": dict(
         category="other", design_ref="§5 U02",
-        technique="Kani/CBMC inductive-step harnesses on Writer::sync (flush, then sync_data, then publish) and Writer::set_len over arbitrary writer states; replay on real files",
-        text="Bounded stand-in for the WRITER half of C18: the flushed offset is only ever advanced to the write offset after the buffered bytes reached the file and sync_data was called; truncation lowers it and keeps bytes below intact; appends publish nothing. Hence no reader can be handed an offset whose bytes are not in the file.",
-        note="PARTIAL: the reader half (ReadAheadBuf provenance: cache hits confined to bytes that were below the flushed offset when fetched) could NOT be brought under a machine-checked contract in this build (Kani: out of memory on Vec-based buffer code even with 8-byte windows). It is exercised only by the real-file replay driver. Known finding: a long-lived reader's cache is not invalidated when already-flushed records are truncated (set_len below the flushed offset) — not reachable from sierradb, which only truncates unflushed tails."),
+        technique="Verus unbounded proof of the provenance contract on ReadAheadBuf::{read,fill,overlaps,invalidate} (real 64 KiB / 4 KiB constants) + Kani/CBMC inductive-step harnesses on Writer::sync (flush, then sync_data, then publish) and Writer::set_len over arbitrary writer states; replay on real files",
+        text="READER half (Verus, unbounded): inv = the read-ahead cache holds only bytes below the flushed offset loaded when it was filled, equal to the file; read() serves exactly file.disk()[offset..offset+length] for every request below the flushed offset (hit or refill) and re-establishes inv; fill() covers the request window; overlaps() is exact interval overlap. WRITER half (Kani, bounded): the flushed offset is only ever advanced to the write offset after the buffered bytes reached the file and sync_data was called; truncation lowers it and keeps bytes below intact; appends publish nothing. Hence no reader can be handed an offset whose bytes are not in the file.",
+        note="category `other` because the writer half is a bounded stand-in; the reader-cache obligations are discharged by Verus (counted in obligations/discharged). ASSUMED: FileExt::read_at returns bytes of the file (per-call snapshot); bytes below the flushed offset do not change between calls (writer contract) — so Reader::read_record_sequential / Iter see exactly the flushed bytes through the cache; their record decoding is C17. After an I/O error inside fill the invariant is not claimed (fill does not reset valid_len: candidate, DESIGN A.5). Known finding: a long-lived reader's cache is not invalidated when already-flushed records are truncated (set_len below the flushed offset) — not reachable from sierradb, which only truncates unflushed tails."),
     "C19": dict(
         category="other", design_ref="§5 U02",
         technique="Kani/CBMC inductive-step harness on Writer::append / prepare_data over arbitrary writer position and segment size",
@@ -47,6 +47,11 @@ CLAIMS = {
         technique="Kani/CBMC on bucket_id_to_thread_id extracted verbatim: total on listed buckets, thread id in range, deterministic (router and owner filter call the same function), balanced",
         text="Bounded stand-in (<= 6 buckets, ids full-range u16, any thread count): every stored bucket is routed to exactly one existing writer thread, the same one Worker::new assigns it to, so appends to one bucket are executed by one thread one at a time; the per-request accept/reject decision is the sequential contract of C25/C02 (validate_partition_sequence, expected-version algebra).",
         note="PARTIAL: the serialisation itself is Rust ownership (&mut WriterSet owned by one thread; trusted: rustc) plus the sequential run loop; channel and scheduler behaviour are not modelled. WriterSet::validate_event_versions / handle_write are not under contract in this build."),
+    "C05": dict(
+        category="proof", design_ref="§5 U03 (open)",
+        technique="Verus unbounded proof on seglog Writer::open (the recovery scan) extracted verbatim, with the Reader behind its contract; replay on real files",
+        text="For EVERY file content (every truncation length, every corruption the reader's CRC gate rejects, a torn tail, a truncation marker) a reopened writer resumes exactly at the end of the maximal run of intact records from the start offset; the flushed offset and the file cursor are at that position and nothing is buffered; reopening fails only on an I/O error, never on corruption. This is the function-level half of `recovers to a consistent prefix and continues without gap or reuse` for the segment log.",
+        note="PARTIAL: only the seglog recovery scan. The Reader is assumed to satisfy its contract (read_record returns the intact record at an offset or the documented stop kind; parse_record's gate is checked under C17). NOT decided: Open*Index::hydrate (indexes events whose commit record is missing: candidate, DESIGN §10), Worker::new, DatabaseBuilder::open, rollover index files (C06), partition-sequence / stream-version continuation after reopen at database level."),
     "C08": dict(
         category="other", design_ref="§7 U09",
         technique="Kani/CBMC on update_confirmation extracted verbatim (model BTreeMap): per-call contract over arbitrary state with the maximal-watermark invariant assumed before and proved after (inductive step); complete harness for the atomic cell",
@@ -86,7 +91,6 @@ CLAIMS = {
 
 NOT_APPLICABLE = {
     "C02": "not decided in this build: the Kani harness for WriterSet::validate_event_versions (units/U12, real text against the model HashMap) runs CBMC out of memory even at 2 events / 3 streams, Verus rejects its hash_map::Entry matching, and handle_write needs the whole writer environment; the partition-sequence half (validate_partition_sequence == accepts == is_satisfied_by) is proved under C25 (DESIGN A.3)",
-    "C05": "not decided in this build: Writer::open's recovery-scan harness exceeds CBMC's memory (Vec-based reader) and Open*Index::hydrate was not brought under contract; only exercised by the real-file replay driver (DESIGN A.3, A.4)",
     "C07": "not decided in this build: the watermark gates sit inside async actor handlers (slices R4/R5 not built); only AtomicWatermark::can_read(s) == (s < get()) is under contract, reported under C08 (DESIGN A.3)",
     "C13": "not decided in this build: Kani does not return on the 64-bit symbolic modulo of the placement functions (> 20 min even for N <= 3) and a Verus contract relating AppConfig::assigned_buckets (contiguous ranges) to the topology (bucket % N) was not built; the mismatch is listed as a candidate in DESIGN §10/A.5, not as a finding of a check",
     "C22": "not decided in this build: the response-construction slices of the async request handlers (R4/R5) were not built (DESIGN A.3)",
